@@ -15,7 +15,8 @@ RULE = ("H.264 cases: sequences of 1-40 NAL units (sizes from {2, 3, 10, 1296..1
         "none both, original type/NRI bits, reassembled NAL equal) and STAP-A contents; VP8 first payload S=1/PID=0, others "
         "S=0, all with the frame's picture id; VpxPayloadDescriptor.parse(bytes(d)) field-equal with empty remainder. "
         "Enumeration cases cover single-NAL sizes 2..5200 and VP8 sizes 0..5200 completely. Distinct/non-trivial = distinct "
-        "(codec, size-class vector, packet-kind vector).")
+        "(codec, size-class vector, packet-kind vector)."
+        ' Interleaving: an iterator that runs a complete second packetisation when asked for its k-th NAL unit; both outputs must equal the sequential ones.')
 ASSUMPTIONS = [
     "NAL bodies are Annex-B clean (what a conforming encoder emits): _split_bitstream cannot tell an embedded start code from a real one",
     "PyAV trusted for av.Packet byte storage",
